@@ -1,6 +1,10 @@
 mod c05_extra;
+mod c18;
+mod c19;
+mod c20;
 mod checks_play;
 mod conv;
+mod enums;
 mod fw;
 mod gen;
 mod play;
@@ -9,7 +13,7 @@ use fw::*;
 use std::path::Path;
 
 fn registry() -> Vec<&'static CheckDef> {
-    vec![&checks_play::C01, &checks_play::C02, &checks_play::C03, &checks_play::C05]
+    vec![&checks_play::C01, &checks_play::C02, &checks_play::C03, &checks_play::C05, &enums::C08, &enums::C09, &enums::C14, &enums::C16, &enums::C17, &c18::C18, &c19::C19, &c20::C20]
 }
 
 fn find(id: &str) -> &'static CheckDef {
